@@ -15,13 +15,13 @@ CHECKS = {
    text="Equality (not inclusion) of the rendered schema and of the internal tree with an independent DOM-based definition of the inference, for every document of a bounded space and every transition of a breadth-first search over extend_struct.",
    note="bounded alphabets/weights/depths; reference model trusted (its join laws are checked exhaustively in C06)", ref="DESIGN.md §4 C03"),
  "C05": dict(level="model_checking", engine="choice-explorer", technique="stateless model checking of the implementation under a controlled environment: deviation-bounded exhaustive exploration of HashMap iteration orders (hook), confirmed by free-running repetition on the hooks-off build",
-   text="Every case is re-executed under every assignment of hash-iteration orders with a bounded number of deviations from the default; all observations must equal the default run. Every case is also repeated on the shipped library in fresh threads and processes.",
+   text="Every case is re-executed under every assignment of hash-iteration orders with a bounded number of deviations from the default; all observations must equal the default run. Every case is also repeated on the shipped library in fresh threads and processes, with copies of intermediate values kept alive and rendered in adverse order and with its documents parsed on different threads; some cases run in a process of their own.",
    note="iteration order modelled as arbitrary permutation per (map instance, key set); only HashMap (not HashSet) is hooked; a verdict requires a difference on the real HashMap", ref="DESIGN.md §4 C05"),
  "C06": dict(level="model_checking", engine="bfs", technique="explicit-state model checking of the implementation: breadth-first search over extend_struct (documents, element-less and malformed inputs as events) with per-transition invariants and a differential table keyed by the multiset of supplied documents",
-   text="Batch equivalence, monotonicity, idempotence, neutrality of element-less inputs, order independence and Err-on-malformed are evaluated on every transition of the search.",
+   text="Batch equivalence, monotonicity, idempotence, neutrality of element-less inputs, order independence and Err-on-malformed (also when the defect sits behind a complete root element) are evaluated on every transition of the search, and on second documents that are cut off inside open elements, wrapped in prologs / epilogs or taken from an attribute-heavy space.",
    note="bounded alphabet and depth; reference join laws checked exhaustively on the alphabet", ref="DESIGN.md §4 C06"),
  "C09": dict(level="model_checking", engine="sweep+bfs", technique=BFS,
-   text="For every document of an order-sensitive space and every transition of a search over extend_struct both sort options are rendered and compared with the first-appearance / XML-name orders of the DOM reference; struct order must be the pre-order walk; the two renderings must differ in order only.",
+   text="For every document of an order-sensitive space and every transition of a search over extend_struct both sort options are rendered and compared with the first-appearance / XML-name orders of the DOM reference; struct order must be the pre-order walk; the two renderings must differ in order only; the same options built in other ways (sort set before the derive() builder, all fields written out) must render the same bytes.",
    note="bounded alphabets (3 element names, 3 attribute names as sequences)", ref="DESIGN.md §4 C09"),
  "C15": dict(level="exploration", engine="sweep", technique=SWEEP,
    text="Every ordered pair of duplicate-free tagged lists over a small alphabet is merged by the real function and judged clause by clause against the statement.",
